@@ -37,3 +37,53 @@ Proof.
       [destruct x; try discriminate|]; inversion H; reflexivity.
   - destruct (diag_of_error cx e); [|discriminate]. inversion H. reflexivity.
 Qed.
+
+(* ---- over histories: whatever was done to a Parser, its validate returns ---- *)
+From AidlV Require Import Model.ParserState.
+Section History.
+  Variable lcf : str -> list (N * N).           (* the line/column table of a text (the line-col crate: modelled as given) *)
+  Hypothesis lcf_ok : forall s, length (lcf s) = S (length s).
+  Variable fs : str -> option str.
+
+  Definition parse_model (id content : str) : file_result :=
+    match add_content (Ctx content (lcf content)) id with Added fr => fr | _ => FR id None [] end.
+
+  Lemma parse_model_held id c : held (parse_model id c).
+  Proof.
+    unfold parse_model.
+    destruct (every_text_is_held (Ctx c (lcf c)) id (lcf_ok c)) as [fr [H E]]. rewrite H.
+    exists (Ctx c (lcf c)). split; [apply lcf_ok|]. rewrite E. exact H.
+  Qed.
+
+  Lemma put_held k v (s : list (str * file_result)) : held v -> Forall held (map snd s) -> Forall held (map snd (put k v s)).
+  Proof.
+    intros Hv. induction s as [|[k' v'] s IH]; intros H; cbn [put map snd]; [constructor; [exact Hv|constructor]|].
+    inversion H; subst. destruct (str_eqb k k'); cbn [map snd]; constructor; auto.
+  Qed.
+  Lemma del_held k (s : list (str * file_result)) : Forall held (map snd s) -> Forall held (map snd (del k s)).
+  Proof.
+    unfold del. induction s as [|[k' v'] s IH]; intros H; cbn [filter map]; [constructor|]. inversion H; subst.
+    destruct (negb (str_eqb k (fst (k', v')))); cbn [map snd]; [constructor; auto|auto].
+  Qed.
+
+  Lemma step_held s o : Forall held (map snd s) -> Forall held (map snd (fst (step parse_model fs s o))).
+  Proof.
+    intros H. destruct o; cbn [step fst].
+    - apply put_held; [apply parse_model_held|exact H].
+    - apply del_held. exact H.
+    - exact H.
+    - destruct (fs path); cbn [fst]; [apply put_held; [apply parse_model_held|exact H]|exact H].
+  Qed.
+
+  Lemma run_held ops : Forall held (map snd (run parse_model fs ops)).
+  Proof.
+    unfold run. assert (G : forall s, Forall held (map snd s) -> Forall held (map snd (fold_left (fun s o => fst (step parse_model fs s o)) ops s))).
+    { induction ops as [|o ops IH]; intros s H; cbn [fold_left]; [exact H|]. apply IH. apply step_held. exact H. }
+    apply G. constructor.
+  Qed.
+
+  (* after any history of add_content / remove / add_file / validate, validate returns one result per held file *)
+  Theorem validate_after_any_history ops :
+    exists r, validate_state (run parse_model fs ops) = Ok r /\ map fr_id r = map fr_id (map snd (run parse_model fs ops)).
+  Proof. unfold validate_state. apply validate_total. apply run_held. Qed.
+End History.
